@@ -12,3 +12,79 @@ package pipeline
 //@   requires w != nil
 //@   modifies nothing
 //@   ensures [count-window-executable] result == nil && w.PeriodCount != 0 ==> w.PeriodCount > 0 && w.EveryCount > 0 && w.Period == 0 && !w.AlignFlag
+
+// ---------------------------------------------------------------- eval.go (C05)
+// "defining it returns either a task or an error": an eval definition that passes validation can
+// be executed -- the executing node indexes the .as() names by expression number and sizes its
+// result by len(as) - len(tags), so there is exactly one name per expression and every tag name
+// is one of the .as() names.
+//@ func (*EvalNode).validate
+//@   props C05
+//@   requires e != nil
+//@   modifies nothing
+//@   ensures [eval-executable] result == nil ==> len(e.AsList) == len(e.Lambdas)
+//@   ensures [tags-are-as-names] result == nil ==> forall t int :: 0 <= t && t < len(e.TagsList) ==> exists a int :: 0 <= a && a < len(e.AsList) && e.AsList[a] == e.TagsList[t]
+//@   loop 1
+//@     modifies nothing
+//@     invariant 0 <= _i && _i <= len(e.TagsList)
+//@     invariant forall t int :: 0 <= t && t < _i ==> exists a int :: 0 <= a && a < len(e.AsList) && e.AsList[a] == e.TagsList[t]
+//@   loop 2
+//@     modifies nothing
+//@     invariant 0 <= _i && _i <= len(e.AsList) && !found
+
+// ---------------------------------------------------------------- barrier.go, combine.go, join.go (C05, C12)
+// A barrier definition that passes validation names exactly one positive duration (the executing
+// node starts a ticker with it; a non-positive ticker period panics).
+//@ func (*BarrierNode).validate
+//@   props C05
+//@   requires b != nil
+//@   modifies nothing
+//@   ensures [barrier-executable] result == nil ==> (b.Period == 0 && b.Idle > 0) || (b.Idle == 0 && b.Period > 0)
+
+// combine/join: one non-empty prefix per expression / parent, no two prefixes equal (the output
+// fields are named prefix + delimiter + field: equal prefixes would make two inputs overwrite each
+// other's fields) -- "fields prefixed by the as() names".
+//@ func (*CombineNode).validate
+//@   props C05 C10
+//@   requires n != nil
+//@   ensures [one-prefix-per-expression] result == nil ==> len(n.Names) >= 1 && len(n.Names) == len(n.Lambdas)
+//@   ensures [prefixes-non-empty] result == nil ==> forall a int :: 0 <= a && a < len(n.Names) ==> len(n.Names[a]) > 0
+//@   ensures [prefixes-distinct] result == nil ==> forall a int, b int :: 0 <= a && a < b && b < len(n.Names) ==> n.Names[a] != n.Names[b]
+//@   loop 1
+//@     modifies nothing
+//@     invariant 0 <= _i && _i <= len(n.Names)
+//@     invariant forall a int :: 0 <= a && a < _i ==> len(n.Names[a]) > 0
+//@   loop 2
+//@     invariant 0 <= _i && _i <= len(n.Names) && fresh(names) && names != nil
+//@     invariant forall a int :: 0 <= a && a < len(n.Names) ==> len(n.Names[a]) > 0
+//@     invariant forall a int :: 0 <= a && a < _i ==> has(names, n.Names[a]) && names[n.Names[a]]
+//@     invariant forall a int, b int :: 0 <= a && a < b && b < _i ==> n.Names[a] != n.Names[b]
+//@ func (*node).Parents
+//@   trusted
+//@   pure
+//@ func (*JoinNode).validate
+//@   props C05 C12
+//@   requires j != nil
+//@   ensures [one-prefix-per-parent] result == nil ==> len(j.Names) >= 1 && len(j.Names) == len(callresult(Parents, 0))
+//@   ensures [prefixes-non-empty] result == nil ==> forall a int :: 0 <= a && a < len(j.Names) ==> len(j.Names[a]) > 0
+//@   ensures [prefixes-distinct] result == nil ==> forall a int, b int :: 0 <= a && a < b && b < len(j.Names) ==> j.Names[a] != j.Names[b]
+//@   loop 1
+//@     modifies nothing
+//@     invariant 0 <= _i && _i <= len(j.Names)
+//@     invariant forall a int :: 0 <= a && a < _i ==> len(j.Names[a]) > 0
+//@   loop 2
+//@     invariant 0 <= _i && _i <= len(j.Names) && fresh(names) && names != nil
+//@     invariant forall a int :: 0 <= a && a < len(j.Names) ==> len(j.Names[a]) > 0
+//@     invariant forall a int :: 0 <= a && a < _i ==> has(names, j.Names[a]) && names[j.Names[a]]
+//@     invariant forall a int, b int :: 0 <= a && a < b && b < _i ==> j.Names[a] != j.Names[b]
+
+// default(): every default field value of a validated node is of one of the four field types the
+// rest of the pipeline (and the UDF boundary) handles.
+//@ func (*DefaultNode).validate
+//@   props C05
+//@   requires n != nil
+//@   modifies nothing
+//@   ensures [default-fields-typed] result == nil ==> forall k string :: has(n.Fields, k) ==> typeis(n.Fields[k], float64) || typeis(n.Fields[k], int64) || typeis(n.Fields[k], bool) || typeis(n.Fields[k], string)
+//@   loop 1
+//@     modifies nothing
+//@     invariant forall k string :: seen(k) ==> typeis(n.Fields[k], float64) || typeis(n.Fields[k], int64) || typeis(n.Fields[k], bool) || typeis(n.Fields[k], string)
